@@ -118,6 +118,25 @@ class Unit:
         self.dir = os.path.join(ROOT, "contracts", name)
         with open(os.path.join(self.dir, "unit.toml"), "rb") as f:
             self.desc = tomllib.load(f)
+        # include = [...]: item lists shared between units (types); contract_from: reuse another unit's proved contract
+        items = []
+        for inc in self.desc.get("include", []):
+            with open(os.path.normpath(os.path.join(self.dir, inc)), "rb") as f:
+                items += tomllib.load(f).get("item", [])
+        self.desc["item"] = items + self.desc.get("item", [])
+        for it in self.desc["item"]:
+            cf = it.get("contract_from")
+            if cf:
+                with open(os.path.join(ROOT, "contracts", cf, "unit.toml"), "rb") as f:
+                    other = tomllib.load(f)
+                src = [o for o in other.get("item", []) if o.get("path") == it["path"] and o.get("kind") == it["kind"]]
+                if len(src) != 1:
+                    raise SpliceError("contract_from %s: item %s not found" % (cf, it["path"]))
+                for k in ("requires", "ensures", "ret", "desugar"):
+                    if k in src[0] and k not in it:
+                        it[k] = src[0][k]
+                it["role"] = "stub"
+                it["proved_by"] = it.get("proved_by", "unit " + cf)
         self.features = set(features or splice.DEFAULT_FEATURES) - (splice.OFF_FEATURES - {"serde_serialization"})
         self.features -= {"serde_serialization", "bench", "rand"}
         self.cfg_log = []
@@ -338,7 +357,8 @@ class Unit:
                 raise SpliceError("stub of bodyless fn")
             # body replaced; contract assumed
             mt = re.search(r"\S", text)
-            seg.insert(mt.start(), "#[verifier::external_body]", ("gen", "assumed-contract:" + fn_id))
+            seg.insert(mt.start(), "#[verifier::external_body]" + (" // contract proved by " + it["proved_by"] if it.get("proved_by") else ""),
+                       ("gen", ("proved-elsewhere:" if it.get("proved_by") else "assumed-contract:") + fn_id))
             for (ln, tag) in spec_lines:
                 seg.insert(sh.sig_end, ln, tag if tag[0] != "clause" else ("assumed-clause", fn_id, tag[2], tag[3]))
             # drop the body: replace by unimplemented!()
@@ -354,6 +374,8 @@ class Unit:
         # loops
         for lp in it.get("loops", []):
             k = lp["ordinal"]
+            if lp.get("optional") and (k < 1 or k > len(sh.loops) or (lp.get("kind") and lp["kind"] != sh.loops[k - 1]["kind"])):
+                continue  # the contract clause that depends on this loop then fails on its own
             if k < 1 or k > len(sh.loops):
                 raise SpliceError("%s: loop %d not found (%d loops)" % (name, k, len(sh.loops)))
             L = sh.loops[k - 1]
